@@ -33,7 +33,7 @@ pub fn headers() -> Vec<RHeader> {
         RHeader { partial_iv: b"p".to_vec(), ..Default::default() },
         RHeader { iv: b"i".to_vec(), ..Default::default() },
         // crit and exactly one counter signature (the bare, non-list form), in either bucket
-        RHeader { alg: Some(l_int(-8)), crit: vec![l_int(1)], counter_signatures: vec![sig_reps()[1].clone()], ..Default::default() },
+        RHeader { alg: Some(l_int(4)), crit: vec![l_int(1)], counter_signatures: vec![sig_reps()[1].clone()], ..Default::default() },
     ]
 }
 pub fn payloads() -> Vec<Vec<u8>> {
@@ -171,8 +171,14 @@ pub fn new_msg(kind: Kind) -> Msg {
     Msg { kind, protected: RProtected::default(), unprotected: RHeader::default(), payload: None, blob: vec![], signatures: vec![], recipients: vec![], calls: 0, main: None, signers: vec![] }
 }
 
+/// What the caller's closure returns: opaque to the crate, whatever it looks like (longer than any
+/// truncated-MAC size; every third one is a well-formed DER `SEQUENCE { INTEGER, INTEGER }`).
 pub fn closure_output(call: usize) -> Vec<u8> {
-    format!("out-{}", call).into_bytes()
+    if call % 3 == 1 && call < 128 {
+        vec![0x30, 0x06, 0x02, 0x01, call as u8, 0x02, 0x01, 0x01]
+    } else {
+        format!("out-{}-0123456789abcdef0123456789abcdef", call).into_bytes()
+    }
 }
 
 fn is_enc(kind: Kind) -> bool {
